@@ -447,6 +447,24 @@ fn find_in_items(items: &[syn::Item], path: &[String]) -> Option<Found> {
                     tokens: names.join(","),
                 });
             }
+            // `fields@Type`: the types of a struct's fields, in order, each printed as a one-segment
+            // path holding the type's tokens without spaces
+            syn::Item::Struct(st)
+                if cfg_active(&st.attrs) && path.len() == 1 && path[0] == format!("fields@{}", st.ident) =>
+            {
+                let tys: Vec<String> = st
+                    .fields
+                    .iter()
+                    .filter(|f| cfg_active(&f.attrs))
+                    .map(|f| f.ty.to_token_stream().to_string().replace(' ', ""))
+                    .collect();
+                return Some(Found {
+                    line: st.ident.span().start().line,
+                    params: "[]".to_string(),
+                    body: format!("[{}]", tys.iter().map(|t| format!("(EPath [{}])", cstr(t))).collect::<Vec<_>>().join("; ")),
+                    tokens: tys.join(","),
+                });
+            }
             syn::Item::Fn(f) if cfg_active(&f.attrs) => {
                 if f.sig.ident == path[0].as_str() {
                     if path.len() == 1 {
